@@ -1,5 +1,5 @@
 \* exhaustive: 3 content copies, 2 chunks, 2 saves per command (sync: before and after the parity update)
-CONSTANTS NCopies = 3  NChunks = 2  NSaves = 2  Guarded = TRUE
+CONSTANTS NCopies = 3  NChunks = 2  NSaves = 2  WriteFaults = TRUE  VerifyAll = TRUE  Guarded = TRUE
 SPECIFICATION Spec
 INVARIANT TypeOK
 INVARIANT CopiesWhole
